@@ -15,13 +15,16 @@ demo() {  # prints exit status of the demonstration
   elif [ -f $SD/demo.diff ]; then
     git apply $SD/demo.diff >> $LOG 2>&1 || { echo DEMOAPPLYFAIL; return; }
     rc=0
+    donepk=""
     for tf in $(grep '^+++ b/' $SD/demo.diff | sed 's|^+++ b/||'); do
       crate=$(echo $tf | sed -n 's|^crates/\([^/]*\)/.*|\1|p'); name=$(basename $tf .rs)
       pkg=$(sed -n 's/^name *= *"\(.*\)"/\1/p' crates/$crate/Cargo.toml | head -1)
-      if echo $tf | grep -q "/tests/"; then
+      if echo $tf | grep -Eq "^crates/[^/]+/tests/[^/]+\.rs$"; then
         cargo test -p $pkg --offline -j 8 --test $name >> $LOG 2>&1 || rc=1
       else
-        cargo test -p $pkg --offline -j 8 >> $LOG 2>&1 || rc=1
+        case " $donepk " in *" $pkg "*) continue;; esac
+        donepk="$donepk $pkg"
+        cargo test -p $pkg --offline -j 8 --lib >> $LOG 2>&1 || rc=1
       fi
     done
     echo $rc
